@@ -573,6 +573,57 @@ fn check_reference(c: &Circuit, text: &[u8], obs: &mut Obs, seedtag: u64) {
     }
 }
 
+/// Writer-block discovery through the seam. The fault-free reference export has just passed the
+/// `write` seam; its events say how the exporter cuts the text into writes. If one write carried
+/// L > 1 gate lines, the exporter batches its output, and the circuits that matter are the ones
+/// whose gate count sits exactly on a batch boundary - which no drawn program hits by chance (S120:
+/// batches of 52428 gates, the last one lost when the count is an exact multiple). So prefixes of
+/// this circuit with L-2 .. L+1 and 2L-2 .. 2L+1 gates (one output: the last wire; SSA prefixes are
+/// circuits) are exported as well and held to the well-formedness clauses. On this tree every
+/// line is one write (L = 1) and the probe ends after the counting.
+fn chunk_boundary_probe(c: &Circuit, ref_bytes: &[u8], log_mark: usize, obs: &mut Obs) {
+    let evs: Vec<seams::Ev> = seams::world().log.iter().skip(log_mark).copied().collect();
+    let mut off = 0usize;
+    let mut lmax = 0usize;
+    for e in evs.iter().filter(|e| e.sys == b'w' && e.ret > 0) {
+        let end = (off + e.ret as usize).min(ref_bytes.len());
+        let piece = &ref_bytes[off.min(end)..end];
+        let gate_lines = piece.split(|b| *b == b'\n').filter(|l| l.ends_with(b"XOR") || l.ends_with(b"AND") || l.ends_with(b"INV")).count();
+        lmax = lmax.max(gate_lines);
+        off = end;
+    }
+    if off != ref_bytes.len() || lmax <= 1 {
+        bump(&mut obs.counters, "writer_batches_not_observed");
+        return;
+    }
+    bump(&mut obs.counters, "writer_batches_observed");
+    let total_in: usize = c.input_gates.iter().sum();
+    let path = seams::sim_path("boundary.txt");
+    for mult in 1..=2usize {
+        for g in (mult * lmax).saturating_sub(2)..=mult * lmax + 1 {
+            if g == 0 || g > c.gates.len() {
+                continue;
+            }
+            let last = total_in + g - 1;
+            let pc = Circuit { input_gates: c.input_gates.clone(), gates: c.gates[..g].to_vec(), output_gates: vec![last; PANIC_RESULT_SIZE_IN_BITS + 1] };
+            seams::install_plan(Plan::default());
+            let r = do_export(&pc, "", &path, false);
+            obs.executions += 1;
+            if let ExportRes::Ok = r {
+                bump(&mut obs.counters, "writer_batch_boundary_exports");
+                let bytes = seams::disk_get("/SIMDISK/boundary.txt").unwrap_or_default();
+                let verdict = std::str::from_utf8(&bytes).map_err(|_| "not UTF-8".to_string()).and_then(bristol_ref::parse).and_then(|b| bristol_ref::well_formed(&b, &pc.input_gates, 1));
+                if let Err(e) = verdict {
+                    obs.findings.push(finding("export_ok_but_incomplete", "batch_boundary", format!("the exporter writes batches of {lmax} gate lines; the fault-free export of a prefix circuit with {g} gates returned Ok but the file is not well-formed Bristol: {e}")));
+                    seams::disk_remove("/SIMDISK/boundary.txt");
+                    return;
+                }
+            }
+            seams::disk_remove("/SIMDISK/boundary.txt");
+        }
+    }
+}
+
 fn compile_ssa(prog: &ProgSpec, dedup: bool) -> Result<Circuit, String> {
     let consts = build_consts(&prog.consts, &[], 0);
     match guarded(|| compile_src(&prog.src, "main", consts, Opts { register: false, dedup }, false)) {
@@ -633,6 +684,7 @@ fn prepared_subject(prog: &ProgSpec, dedup: bool, keys: Keys, seedtag: u64) -> S
             // fault-free reference export (O2)
             seams::install_plan(Plan::default());
             let _ = seams::take_fired();
+            let log_mark = seams::world().log.len();
             match do_export(&c, &prog.src, &refpath, false) {
                 ExportRes::Ok => {
                     obs.executions += 1;
@@ -641,6 +693,7 @@ fn prepared_subject(prog: &ProgSpec, dedup: bool, keys: Keys, seedtag: u64) -> S
                     }
                     let bytes = seams::disk_get("/SIMDISK/reference.txt").unwrap_or_default();
                     check_reference(&c, &bytes, &mut obs, seedtag);
+                    chunk_boundary_probe(&c, &bytes, log_mark, &mut obs);
                     subj.ref_bytes = Some(bytes);
                 }
                 ExportRes::OutputIsInput => {
